@@ -30,6 +30,10 @@ REF = {
            'append_final_prover_message:b'],
 }
 REF["snmp"] = ['append_label:SetNonMembershipProof'] + REF["smp"][1:]
+# transcript entries that are NOT made on every accepting path, by protocol: the Version2 additions (generators, commitment
+# key, bit width) sit behind the version test, the value commitments of an aggregated range proof inside the loop over them.
+# Everything else - in particular the commitment(s) the statement is about and all prover messages - is bound unconditionally.
+CONDITIONAL_OK = {"range": {"G", "H", "v_keys", "n", "Vj"}, "smp": {"G", "H", "v_keys"}, "snmp": {"G", "H", "v_keys"}}
 
 
 def labels(fn):
@@ -57,6 +61,13 @@ def verifier(ck, path, prover, kind, ip_pat, nparams, skip_params=()):
     if p:
         lp = labels(p)
         ck.ob("SIB", f.path, "prover-agrees", lp == lv, "prover sequence equals verifier sequence" if lp == lv else "prover %s" % lp, p.loc())
+    for g in [f] + ([p] if p else []):
+        acc_g, _ = g.accept_points()
+        cond = sorted(set(l for (m, l, _, bi) in transcript.sequence(g) if not all(g.dominates(bi, a) for a in acc_g)))
+        extra = [l for l in cond if l not in CONDITIONAL_OK.get(kind, set())]
+        ck.ob("DOM", g.path, "transcript-entries-unconditional", not extra,
+              "only %s are version-gated or looped; every other entry is made on every accepting path" % sorted(CONDITIONAL_OK.get(kind, set())) if not extra else
+              "transcript entries %s are made on some paths only: on the other paths the challenges do not depend on them" % extra, g.loc())
     # every public input reaches the transcript or the equations
     srcs = set()
     for (bi, t) in f.calls(r"random_oracle::.*::append_(message|label|messages)$|curve_arithmetic::multiexp$|" + ip_pat + r"|Curve::(mul_by_scalar|plus_point|minus_point)$"):
